@@ -40,20 +40,37 @@ def gen_cases_for(seed_, n):
             # the first character must survive sanitising as a letter or digit (else the label is empty or starts oddly)
             seen.add(f)
             keys.append(k)
+        def inner_obj():
+            # nested models carry hostile keys as well (nested classes are indented and referenced differently)
+            o = {"inner": 1}
+            for _ in range(rng.randint(0, 2)):
+                k2 = random_key(rng) if rng.random() < 0.3 else rng.choice(gen.KEY_STYLES[rng.choice(list(gen.KEY_STYLES))])
+                f2 = gen.ufold(k2)
+                if gen.has_ascii_letter_after_translit(k2) and f2 and k2[0] not in "_0123456789" and f2 not in {gen.ufold(x) for x in o}:
+                    o[k2] = rng.choice(["s", 2])
+            return o
+
         obj = {}
         for k in keys:
             r = rng.random()
             if r < 0.25:
-                obj[k] = {"inner": 1, "other": "s"}
+                obj[k] = dict(inner_obj(), other="s")
             elif r < 0.35:
-                obj[k] = [{"inner": 1}]
+                obj[k] = [inner_obj()]
             else:
                 obj[k] = rng.choice([1, 2.5, True, "s", None, [1], "1"])
         samples = [obj]
         if rng.random() < 0.4 and len(keys) > 1:
             samples.append({k: v for k, v in obj.items() if rng.random() < 0.7} or dict(obj))
         fw = rng.choice(["pydantic", "sqlmodel", "attrs", "dataclasses"])
-        cases.append({"i": i, "models": [["Root", samples]],
+        models = [["Root", samples]]
+        okeys = [k for k, v in obj.items() if isinstance(v, (dict, list)) and k.isalpha() and k.isascii()]
+        if okeys and rng.random() < 0.2:
+            # a second, user-named model whose name equals the class name derived from an object-valued key of the first
+            k = rng.choice(okeys)
+            nm = (k[:-1] if k.endswith("s") and not k.endswith("ss") else k)
+            models.append([nm[:1].upper() + nm[1:], [{"second_only": 1, "zz": "s"}]])
+        cases.append({"i": i, "models": models,
                       "opts": {"framework": fw, "flat": rng.random() < 0.7, "merge": [["exact"]], "max_literals": 10,
                                "convert_unicode": rng.random() < 0.6, "registry": ["IntString", "FloatString", "BooleanString"],
                                "dkf": [], "dkr": [], "post_init_converters": False, "meta": True}})
